@@ -101,6 +101,11 @@ P3_CALLS = [
     ["gen", "g", {"args": ["1"]}, {}],
     ["type", "R", 7, {}], ["type", "R", "x", {}], ["type", "R", -3, {}], ["type", "R", 12.0, {}],
     ["type", "U", 5, {}], ["type", "U", {"n": 1}, {}], ["type", "U", {"n": -1}, {}], ["type", "U", "zz", {}],
+    # unions in which several arguments accept inputs of one Python type: which argument wins must depend on the VALUE only,
+    # never on which argument took an earlier input of that type
+    ["type", "UL", [1.5, 2.5], {}], ["type", "UL", [1, 2, 3], {}], ["type", "UL", ["1", "2"], {}], ["type", "UD", 3.5, {}], ["type", "UD", 3.0, {}],
+    ["type", "UD", "7", {}], ["type", "UAG", {"name": "g"}, {}], ["type", "UAG", {"name": "root", "level": 9}, {}], ["type", "UAG", {"name": "x", "level": "y"}, {}],
+    ["from", "Item", {"n": 1, "ul": [1, 2]}, {}], ["from", "Item", {"n": 1, "ul": [0.5]}, {}],
 ]
 
 
@@ -129,6 +134,7 @@ class {I}({base}):
     tags: List[int] = Field(default_factory=list)
     child: {child_ann.replace("Item", I)} = None
     u: {u_ann.replace("Other", O)} = None
+    ul: Union[List[int], List[float]] = None
 {other_last}
 @parse
 def f(a: int, b: '{I}' = None, *args: int, **kw) -> int:
@@ -144,6 +150,14 @@ class R(int, Rule):
     multiple_of = Lax(5)
 
 U = Rule.parse_annotation(Union[int, {I}])
+UL = Rule.parse_annotation(Union[List[int], List[float]])
+UD = Rule.parse_annotation(Union[int, __import__('decimal').Decimal])
+class Admin{uid}(Schema):
+    name: str
+    level: int
+class Guest{uid}(Schema):
+    name: str
+UAG = Rule.parse_annotation(Union[Admin{uid}, Guest{uid}])
 Item, Other = {I}, {O}
 """
     return src, (base, opts, late, child_ann, u_ann)
